@@ -164,7 +164,7 @@ GRID = {"h_tee": _grid}
 
 def jobs(tier):
     q = tier == "quick"
-    T = 200 if q else 900
+    T = 400 if q else 900
     J = []
 
     def add(**part):
